@@ -12,6 +12,16 @@ meant to be, anything else with the key as its only argument; the key is given a
 lower / upper / member / mixed(str, member) / a name that is no frame.  On a registry built for the case the answer and the keys held
 afterwards must be those of the same call with `TransformKey(member, member)`; a non-frame name must never be answered positively.
 The model (`transform_key`) says which pair of members the key names, or that it is rejected.
+
+Parse sites that take SEVERAL strings (every public entry point of common/evaluation_task.py and the config classes is driven):
+`set_task_lists` (kind `task_list`: every member value, spellings, non-members, repetitions, the empty list, the whole enum in
+several orders), `set_task_dict` (kind `task_dict`: the same as dict keys, every key with an item of its own), the constructors of
+`PerceptionEvaluationConfig` / `SensingEvaluationConfig` (kind `config_site`: the task string of the config dict, `frame_id` as one
+string or a sequence of strings, the `matching_label_policy` string), `LabelConverter` / `FrameID.from_task` with an arbitrary task
+string (kind `task_site_str`), and the PRINTED form of every member (`str(m)`, `format(m)`, `"%s" % m`) through every parser (kind
+`printed`).  Models: `setTaskLists`, `setTaskDict`, `frameIds`, `checkTask` in `PEval.Model.Enums`.
+Kind `hashable`: members as dict / set keys (EvaluationTask -- the fixed finding behind set_task_dict -- and FrameID judged:
+hashable, usable as key, `{member: 1}[member.value]` works because `__eq__` answers for strings; the other enums recorded only).
 """
 from __future__ import annotations
 
@@ -24,7 +34,12 @@ RULE = (
     "every documented alias, every string-or-enum call site in both spellings (Shape, TransformKey / HomogeneousMatrix, the task of "
     "LabelConverter / FrameID.from_task, and EVERY key-taking method of TransformDict, enumerated from the class: get, [], in, "
     "load_key, transform, []=, del, anything new generically; key as pair / list / TransformKey), plus seeded random ASCII strings; "
-    "a case is non-trivial when it reaches a parser with a string (all are); distinct = distinct (parser, string)"
+    "a case is non-trivial when it reaches a parser with a string (all are); distinct = distinct (parser, string). "
+    "several strings at once: set_task_lists / set_task_dict on every singleton over member values x spellings, the whole enum "
+    "(definition order, reversed, seeded shuffles), repetitions, the empty input, seeded mixtures of member values / near misses / "
+    "random strings; the config constructors on every task string x {supported, unsupported, spellings} x frame_id as one string / "
+    "a sequence (every member, upper case, a non-frame at a seeded position, empty) x policy strings; the printed form "
+    "(str / format / %s) of every member of every enum through its parser"
 )
 THEOREMS = [
     "PEval.C20." + t
@@ -37,13 +52,32 @@ THEOREMS = [
         "nonmember_task", "nonmember_setTask", "nonmember_frame", "nonmember_sensor", "nonmember_shapeType",
         "nonmember_policy", "visibility_alias", "visibility_fallback", "visibility_total",
         "shape_str_eq_enum", "frameArg_str_eq_enum", "frameArg_upper_eq_enum", "transformKey_str_eq_enum",
+        # parse sites taking several strings
+        "task_names_functional", "membersNamed_member", "membersNamed_nonmember", "membersNamed_eq_setTask",
+        "setTaskLists_eq_filterMap", "roundtrip_setTaskLists", "setTaskLists_all_members", "setTaskLists_members",
+        "setTaskLists_sound", "setTaskLists_append", "setTaskLists_nonmember_dropped", "setTaskDict_keys",
+        "roundtrip_setTaskDict", "setTaskDict_keys_nodup", "roundtrip_frameIds_one", "roundtrip_frameIds_many",
+        "nonmember_frameIds", "nonmember_frameIds_one", "roundtrip_checkTask", "nonmember_checkTask",
     ]
 ]
 TRUSTED = [
     "translator harness/gen_tables.py (reads Enum.__members__, evaluates Visibility.from_alias on the strings it compares)",
     "Python str.lower()/upper() modelled by Lean String.toLower/toUpper (ASCII only; generated strings are ASCII)",
 ]
-ASSUMPTIONS = ["strings are ASCII", "set_task returning None counts as rejection (it has no documented fallback)"]
+ASSUMPTIONS = [
+    "strings are ASCII", "set_task returning None counts as rejection (it has no documented fallback)",
+    "set_task_lists / set_task_dict DROP a string that names no member (no exception, no placeholder): counts as rejection, the "
+    "same reading as for set_task returning None; the oracle demands that a non-member string never comes back as a member and "
+    "that member values come back as their member, in order, repetitions and items kept",
+    "MatchingLabelPolicy has no __str__: its printed form 'MatchingLabelPolicy.X' is not a spelling from_str documents (the "
+    "printed-form clause speaks about enums whose str() is the value); not judged, histogram key 'undecided:policy-printed-form'; "
+    "from_str(member.name) and from_str(member.value) ARE judged",
+    "hashability: EvaluationTask (fixed finding a41526b) and FrameID members must be usable as dict / set keys consistently with "
+    "their string-aware __eq__; for ShapeType / Visibility / SensorModality it is only recorded (histogram 'hashable:*'), the "
+    "property does not state it",
+    "config_site: 'prediction' configs are documented as under construction (NotImplementedError) and 3-D tasks take exactly one "
+    "frame (documented ValueError): both count as rejection for reasons outside this property",
+]
 
 ALIASES = {"v0-40": "NONE", "v40-60": "PARTIAL", "v60-80": "MOST", "v80-100": "FULL"}
 
@@ -190,6 +224,159 @@ def _run_key_site(case):
             "signature_unknown": case["path"] not in KEY_PATHS and ref["ans"].get("err") == "TypeError"}
 
 
+# ---- parse sites that take several strings ------------------------------------------------------------------------
+TASKS_3D = ("detection", "tracking", "prediction", "sensing", "fp_validation")
+PRINTED_IS_VALUE = ("task", "set_task", "frame", "visibility", "sensor", "shape_type")  # enums whose __str__ prints the value
+HASH_JUDGED = ("task", "frame")  # task: fixed finding (a41526b); frame: has had __hash__ all along
+HASH_ENUMS = ("task", "frame", "shape_type", "visibility", "sensor", "policy")
+_TMP = []
+
+
+def _hash_enum(name):
+    return _enums()[name][0]
+
+
+def _run_hashable(case):
+    cls = _hash_enum(case["enum"])
+    m = cls.__members__[case["member"]]
+    out = {"has_str_eq": bool(m == m.value)}
+    try:
+        hash(m)
+        out["hashable"] = True
+    except TypeError:
+        out["hashable"] = False
+        return out
+    d = {m: 1}
+    others = [x for x in cls.__members__.values() if x is not m]
+    out["as_key"] = bool(d[m] == 1 and m in d and m in {m} and all(x not in d for x in others))
+    out["hash_stable"] = hash(m) == hash(cls.__members__[case["member"]])
+    try:
+        out["by_value"] = bool(d[m.value] == 1 and m.value in d)
+    except KeyError:
+        out["by_value"] = False
+    out["all_distinct"] = len({x for x in cls.__members__.values()}) == len(cls.__members__)
+    return out
+
+
+def _tmpdir():
+    import tempfile
+
+    if not _TMP:
+        _TMP.append(tempfile.mkdtemp(prefix="c20_"))
+    return _TMP[0]
+
+
+def _config_cls(name):
+    from perception_eval.config import PerceptionEvaluationConfig, SensingEvaluationConfig
+
+    return PerceptionEvaluationConfig if name == "perception" else SensingEvaluationConfig
+
+
+def _config_dict(case):
+    if case["cls"] == "sensing":
+        return {"evaluation_task": case["task"], "target_uuids": None, "box_scale_0m": 1.0, "box_scale_100m": 1.0,
+                "min_points_threshold": 1}
+    d = {"evaluation_task": case["task"], "target_labels": ["car", "bicycle"], "label_prefix": "autoware",
+         "max_x_position": 100.0, "max_y_position": 100.0, "min_point_numbers": [0, 0],
+         "center_distance_thresholds": [1.0], "plane_distance_thresholds": [2.0], "iou_2d_thresholds": [0.5],
+         "iou_3d_thresholds": [0.5]}
+    if case.get("policy") is not None:
+        d["matching_label_policy"] = case["policy"]
+    return d
+
+
+def _run_config_site(case):
+    from perception_eval.common.evaluation_task import EvaluationTask
+    from perception_eval.common.schema import FrameID
+    from perception_eval.evaluation.matching.object_matching import MatchingLabelPolicy
+
+    fid = case["frame_id"]
+    arg = fid if isinstance(fid, str) else (tuple(fid) if case.get("as_tuple") else list(fid))
+    c = _config_cls(case["cls"])([], arg, _tmpdir(), _config_dict(case))
+    t, pol = c.evaluation_task, getattr(c, "label_params", {}).get("matching_label_policy")
+    return {"task": t.name if isinstance(t, EvaluationTask) else repr(t),
+            "frames": [f.name if isinstance(f, FrameID) else repr(f) for f in c.frame_ids],
+            "policy": pol.name if isinstance(pol, MatchingLabelPolicy) else None if pol is None else repr(pol)}
+
+
+def _mixture(rng, values, n):
+    """n strings: member values, their spellings, random strings"""
+    alphabet = string.ascii_letters + string.digits + "_ -."
+    out = []
+    for _ in range(n):
+        r = rng.random()
+        v = rng.choice(values)
+        if r < 0.55:
+            out.append(v)
+        elif r < 0.8:
+            out.append(rng.choice(_spellings(v)[1:]))
+        else:
+            out.append("".join(rng.choice(alphabet) for _ in range(rng.randint(0, 10))))
+    return out
+
+
+def _multi_cases(rng, tier):
+    from perception_eval.common.evaluation_task import EvaluationTask
+    from perception_eval.common.schema import FrameID
+
+    vals = [m.value for m in EvaluationTask.__members__.values()]
+    names = list(EvaluationTask.__members__)
+    lists = [[], list(vals), list(reversed(vals)), vals + vals, [v for v in vals for _ in (0, 1)], list(names),
+             [v.upper() for v in vals], ["", " "], vals[:3] + ["nope"] + vals[3:]]
+    for v in vals:
+        lists += [[s] for s in _spellings(v)] + [[v, v], [v, "x", v]]
+        lists.append([w for w in vals if w != v])
+    for _ in range(6 if tier == "quick" else 60):
+        lists.append(rng.sample(vals, len(vals)))
+    for _ in range(300 if tier == "quick" else 3000):
+        lists.append(_mixture(rng, vals, rng.randint(0, 7)))
+    cases = []
+    for l in lists:
+        cases.append({"kind": "task_list", "items": list(l)})
+        cases.append({"kind": "task_dict", "keys": list(dict.fromkeys(l))})
+    # the printed form of every member through its parser
+    for parser, (cls, _) in _enums().items():
+        for m in cls.__members__:
+            for how in ("str", "format", "percent"):
+                cases.append({"kind": "printed", "parser": parser, "member": m, "how": how})
+    # members as dict / set keys (their __eq__ also answers for strings)
+    for en in HASH_ENUMS:
+        for m in _hash_enum(en).__members__:
+            cases.append({"kind": "hashable", "enum": en, "member": m})
+    # an arbitrary task string at the string-or-enum call sites
+    for v in vals:
+        for sp in _spellings(v) + [v.upper().lower()]:
+            for site in ("label_converter", "frame_from_task"):
+                cases.append({"kind": "task_site_str", "site": site, "s": sp, "prefix": rng.choice(("autoware", "traffic_light"))})
+    # the config constructors: task string, frame_id (one string / a sequence), policy string
+    frames = [m.value for m in FrameID.__members__.values()]
+    pols = [None, "default", "ALLOW_UNKNOWN", "allow_any", "Allow_Any", "nope", "ALLOW ANY", ""]
+    for cls_name in ("perception", "sensing"):
+        for v in vals:
+            for sp in [v, v.upper(), v.title(), v + " ", v[:-1]]:
+                cases.append({"kind": "config_site", "cls": cls_name, "task": sp, "frame_id": "base_link",
+                              "policy": rng.choice(pols) if cls_name == "perception" else None})
+    for f in frames:
+        for fid in (f, f.upper(), f.title(), f + "_x", [f], [f.upper()], [f, rng.choice(frames)], (f,)):
+            for task in ("detection", "classification2d"):
+                cases.append({"kind": "config_site", "cls": "perception", "task": task, "frame_id": list(fid) if not isinstance(fid, str) else fid,
+                              "as_tuple": isinstance(fid, tuple), "policy": None})
+        cases.append({"kind": "config_site", "cls": "sensing", "task": "sensing", "frame_id": rng.choice([f, f.upper(), [f], f[:-1]]), "policy": None})
+    for p in pols:
+        for task in ("detection", "tracking2d", "fp_validation"):
+            cases.append({"kind": "config_site", "cls": "perception", "task": task, "frame_id": "base_link", "policy": p})
+    for _ in range(150 if tier == "quick" else 1500):
+        n = rng.randint(0, 4)
+        fid = [rng.choice(frames) for _ in range(n)]
+        fid = [rng.choice([x, x.upper()]) for x in fid]
+        if fid and rng.random() < 0.4:
+            i = rng.randrange(len(fid))
+            fid[i] = rng.choice([fid[i] + "_x", fid[i][:-1], "", "cam", " " + fid[i]])
+        cases.append({"kind": "config_site", "cls": "perception", "task": rng.choice([v for v in vals if v != "sensing"]), "frame_id": fid,
+                      "as_tuple": rng.random() < 0.3, "policy": rng.choice(pols)})
+    return cases
+
+
 def corpus():
     cs = []
     # F12 (fixed): the four parsers that returned names / an unparsable value
@@ -198,6 +385,18 @@ def corpus():
     for p, s in [("visibility", "full"), ("sensor", "lidar"), ("shape_type", "bounding_box"), ("sensor", "sonar")]:
         cs.append({"kind": "parse", "parser": p, "s": s})
     cs.append({"kind": "shape_arg", "member": "BOUNDING_BOX", "spelling": "str"})
+    # the docstring examples of the list / dict parsers, a dropped non-member, the config constructors
+    cs.append({"kind": "task_list", "items": ["detection", "tracking"]})
+    cs.append({"kind": "task_dict", "keys": ["detection"]})  # FIXED finding (a41526b): the docstring example raised TypeError
+    cs.append({"kind": "task_dict", "keys": ["detection", "tracking", "prediction", "sensing", "detection2d", "tracking2d",
+                                            "classification2d", "fp_validation", "fp_validation2d"]})  # every member as key
+    cs.append({"kind": "hashable", "enum": "task", "member": "DETECTION"})
+    cs.append({"kind": "task_list", "items": ["detection", "Detection", "x", "tracking", "detection"]})
+    cs.append({"kind": "task_dict", "keys": ["foo", "bar"]})
+    cs.append({"kind": "config_site", "cls": "perception", "task": "classification2d", "frame_id": ["cam_front", "CAM_BACK"], "policy": "allow_any"})
+    cs.append({"kind": "config_site", "cls": "perception", "task": "detection", "frame_id": "BASE_LINK", "policy": None})
+    cs.append({"kind": "config_site", "cls": "sensing", "task": "sensing", "frame_id": "base_link", "policy": None})
+    cs.append({"kind": "printed", "parser": "frame", "member": "CAM_TRAFFIC_LIGHT", "how": "str"})
     return cs
 
 
@@ -250,6 +449,7 @@ def generate(rng, tier):
             for merge in (False, True):
                 cases.append({"kind": "task_site", "site": "label_converter", "task": t, "prefix": prefix, "merge": merge})
         cases.append({"kind": "task_site", "site": "frame_from_task", "task": t})
+    cases += _multi_cases(rng, tier)
     return cases
 
 
@@ -322,6 +522,44 @@ def run_impl(case):
 
             a, b = run(t.value), run(t)
             return {"same": a == b, "str": a if a != b else None, "enum": b if a != b else None}
+        if k == "task_list":
+            from perception_eval.common.evaluation_task import EvaluationTask, set_task_lists
+
+            items = list(case["items"])
+            r = set_task_lists(items)
+            return {"members": [m.name if isinstance(m, EvaluationTask) else repr(m) for m in r], "is_list": isinstance(r, list),
+                    "input_kept": items == case["items"]}
+        if k == "task_dict":
+            from perception_eval.common.evaluation_task import EvaluationTask, set_task_dict
+
+            payload = [{"i": i} for i in range(len(case["keys"]))]
+            d = dict(zip(case["keys"], payload))
+            r = set_task_dict(d)
+            idx = {id(p): i for i, p in enumerate(payload)}
+            return {"items": [[m.name if isinstance(m, EvaluationTask) else repr(m), idx.get(id(v))] for m, v in r.items()],
+                    "is_dict": isinstance(r, dict), "input_kept": list(d) == list(case["keys"])}
+        if k == "printed":
+            cls, fn = _enums()[case["parser"]]
+            m = cls.__members__[case["member"]]
+            text = str(m) if case["how"] == "str" else format(m) if case["how"] == "format" else "%s" % (m,)
+            out = {"text": text}
+            try:
+                out.update(_canon(cls, fn(text)))
+            except Exception as e:  # noqa
+                out["err"] = type(e).__name__
+            return out
+        if k == "task_site_str":
+            from perception_eval.common.evaluation_task import EvaluationTask
+            from perception_eval.common.label import LabelConverter
+
+            if case["site"] == "label_converter":
+                return _canon(EvaluationTask, LabelConverter(case["s"], False, case["prefix"]).evaluation_task)
+            r = FrameID.from_task(case["s"])
+            return {"frame": r.name if isinstance(r, FrameID) else repr(r)}
+        if k == "config_site":
+            return _run_config_site(case)
+        if k == "hashable":
+            return _run_hashable(case)
     except Exception as e:
         return {"err": type(e).__name__}
     raise ValueError(k)
@@ -333,6 +571,20 @@ def model_requests(case, out):
         return []
     if k == "parse":
         return [{"op": "parse", "parser": case["parser"], "s": case["s"]}]
+    if k == "task_list":
+        return [{"op": "task_list", "items": case["items"]}]
+    if k == "task_dict":
+        return [{"op": "task_dict", "keys": case["keys"]}]
+    if k == "printed":
+        return [{"op": "parse", "parser": case["parser"], "s": out["text"]}] if "text" in out else []
+    if k == "task_site_str":
+        return [{"op": "parse", "parser": "task", "s": case["s"]}]
+    if k == "config_site":
+        support = list(_config_cls(case["cls"])._support_tasks)
+        reqs = [{"op": "check_task", "support": support, "s": case["task"]}, {"op": "frame_ids", "arg": case["frame_id"]}]
+        if case["cls"] == "perception" and case.get("policy"):
+            reqs.append({"op": "parse", "parser": "policy", "s": case["policy"]})
+        return reqs
     from perception_eval.common.schema import FrameID
     from perception_eval.common.shape import ShapeType
 
@@ -356,9 +608,50 @@ def model_requests(case, out):
     return []
 
 
+def _config_expect(case, resps):
+    """what the constructor answers according to the model: the first rejection in the order of the constructor's steps
+    (task, policy, frame ids, one frame for a 3-D task, 'prediction' under construction), else the members"""
+    t, fr = resps[0], resps[1]
+    pol = resps[2] if len(resps) > 2 else None
+    if "err" in t:
+        return {"err": t["err"]}
+    if "none" in t:
+        return None  # a supported name that is no member value: not produced by the live classes
+    if pol is not None and "err" in pol:
+        return {"err": pol["err"]}
+    if "err" in fr:
+        return {"err": fr["err"]}
+    if case["task"] in TASKS_3D and len(fr["members"]) != 1:
+        return {"err": "ValueError"}
+    if case["task"] == "prediction":
+        return {"err": "NotImplementedError"}
+    return {"task": t["member"], "frames": fr["members"],
+            "policy": None if case["cls"] == "sensing" else pol["member"] if pol is not None else "DEFAULT"}
+
+
 def compare(case, out, resps):
     r = resps[0]
     k = case["kind"]
+    if k == "task_list":
+        if "err" in out:
+            return f"impl raised {out['err']}, model {r}"
+        return None if out.get("members") == r.get("members") else f"impl {out.get('members')} != model {r.get('members')}"
+    if k == "task_dict":
+        if "err" in out:
+            return f"impl raised {out['err']}, model {r}"
+        return None if out.get("items") == r.get("items") else f"impl {out.get('items')} != model {r.get('items')}"
+    if k in ("printed", "task_site_str"):
+        if k == "task_site_str" and case["site"] == "frame_from_task":
+            return None if ("err" in r) <= ("err" in out) else f"from_task({case['s']!r}) answered {out}, the model rejects the string"
+        a = {x: out.get(x) for x in ("member", "err", "none") if x in out}
+        b = {x: r.get(x) for x in ("member", "err", "none") if x in r}
+        return None if a == b else f"impl {a} != model {b}"
+    if k == "config_site":
+        want = _config_expect(case, resps)
+        if want is None:
+            return None
+        got = {"err": out["err"]} if "err" in out else {x: out.get(x) for x in ("task", "frames", "policy")}
+        return None if got == want else f"config: impl {got} != model {want}"
     if k == "parse":
         a = {x: out.get(x) for x in ("member", "err", "none") if x in out}
         b = {x: r.get(x) for x in ("member", "err", "none") if x in r}
@@ -386,8 +679,112 @@ def compare(case, out, resps):
         return None
 
 
+def _task_values():
+    from perception_eval.common.evaluation_task import EvaluationTask
+
+    return {m.value: m.name for m in EvaluationTask.__members__.values()}
+
+
+def _frame_status(x):
+    from perception_eval.common.schema import FrameID
+
+    vals = {m.value: m.name for m in FrameID.__members__.values()}
+    if x.lower() not in vals:
+        return "bad", None
+    return ("member" if x in (x.lower(), x.upper()) else "mixed"), vals[x.lower()]
+
+
+def _policy_status(x):
+    from perception_eval.evaluation.matching.object_matching import MatchingLabelPolicy
+
+    if not x:
+        return "member", "DEFAULT"  # no policy given: the default (allow_matching_unknown is not set)
+    if x.upper() not in MatchingLabelPolicy.__members__:
+        return "bad", None
+    return ("member" if x in (x.lower(), x.upper()) else "mixed"), x.upper()
+
+
+def _oracle_multi(case, out):
+    k = case["kind"]
+    byval = _task_values()
+    if k == "task_list":
+        items = case["items"]
+        known = [byval[s] for s in items if s in byval]
+        unknown = [s for s in items if s not in byval]
+        if "err" in out:
+            return None if unknown else f"set_task_lists({items!r}) raised {out['err']} although every string is a member value"
+        got = [m for m in out["members"] if m != "None"]  # a None placeholder would be a rejection too
+        if not out.get("is_list"):
+            return f"set_task_lists({items!r}) did not return a list"
+        if got != known:
+            return (f"set_task_lists({items!r}) gave {out['members']}; the member values among the strings name {known} (in this order), "
+                    f"the other strings {unknown} name no member")
+        return None  # a string that names no member is dropped: a rejection, see ASSUMPTIONS
+    if k == "task_dict":
+        keys = case["keys"]
+        known = [[byval[s], i] for i, s in enumerate(keys) if s in byval]
+        unknown = [s for s in keys if s not in byval]
+        if "err" in out:
+            if known:
+                return (f"set_task_dict(keys {keys!r}) raised {out['err']}; the keys {[k for k in keys if k in byval]} are member values "
+                        f"and must come back as the members {[m for m, _ in known]}")
+            return None if unknown else f"set_task_dict(keys {keys!r}) raised {out['err']} although every key is a member value"
+        if not out.get("is_dict"):
+            return f"set_task_dict(keys {keys!r}) did not return a dict"
+        if out["items"] != known:
+            return (f"set_task_dict(keys {keys!r}) gave (member, number of the item) {out['items']}; the member values among the keys "
+                    f"name {known}, the other keys {unknown} name no member")
+        return None
+    if k == "printed":
+        if out.get("member") == case["member"]:
+            return None
+        what = f"{case['parser']}({out.get('text')!r}), the printed form ({case['how']}) of {case['member']},"
+        if case["parser"] in PRINTED_IS_VALUE:
+            return f"{what} should give the member back, got { {x: out[x] for x in out if x != 'text'} }"
+        return f"{what} gave another member: {out['member']}" if "member" in out else None  # not judged: no __str__, see ASSUMPTIONS
+    if k == "task_site_str":
+        s = case["s"]
+        if s in byval:
+            if case["site"] == "label_converter" and out.get("member") != byval[s]:
+                return f"LabelConverter(evaluation_task={s!r}) has task {out}, the string names {byval[s]}"
+            return None
+        return None if "err" in out else f"{case['site']} accepted the task string {s!r}, which is no member value: {out}"
+    if k == "config_site":
+        cls = _config_cls(case["cls"])
+        fid = case["frame_id"]
+        fl = [fid] if isinstance(fid, str) else list(fid)
+        what = f"{cls.__name__}(frame_id={fid!r}, evaluation_task={case['task']!r}, matching_label_policy={case.get('policy')!r})"
+        st = [("member", byval[case["task"]]) if case["task"] in byval and case["task"] in cls._support_tasks else ("bad", None)]
+        st += [_frame_status(x) for x in fl]
+        if case["cls"] == "perception":
+            st.append(_policy_status(case.get("policy")))
+        kinds = [a for a, _ in st]
+        if "bad" in kinds:
+            return None if "err" in out else f"{what} was accepted although a string names no member: {out}"
+        if "err" in out:
+            if "mixed" in kinds or case["task"] == "prediction" or (case["task"] in TASKS_3D and len(fl) != 1):
+                return None
+            return f"{what} raised {out['err']} although every string is a member's own value"
+        want = {"task": st[0][1], "frames": [b for _, b in st[1:1 + len(fl)]], "policy": st[-1][1] if case["cls"] == "perception" else None}
+        got = {x: out.get(x) for x in ("task", "frames", "policy")}
+        return None if got == want else f"{what} holds {got}, the strings name {want}"
+
+
 def oracle(case, out):
     k = case["kind"]
+    if k in ("task_list", "task_dict", "printed", "task_site_str", "config_site"):
+        return _oracle_multi(case, out)
+    if k == "hashable":
+        if case["enum"] not in HASH_JUDGED:
+            return None  # recorded only
+        who = f"{_hash_enum(case['enum']).__name__}.{case['member']}"
+        if "err" in out or not out.get("hashable"):
+            return f"{who} is not hashable ({out.get('err', 'TypeError')}): it cannot be a dict key (set_task_dict, transform registries)"
+        if not (out["as_key"] and out["hash_stable"] and out["all_distinct"]):
+            return f"{who} does not work as a dict / set key: {out}"
+        if out["has_str_eq"] and not out["by_value"]:
+            return f"{who} == its value string but {{member: 1}}[value] fails: __hash__ is inconsistent with the string-aware __eq__: {out}"
+        return None
     if k == "parse":
         cls, _ = _enums()[case["parser"]]
         s = case["s"]
@@ -445,6 +842,32 @@ def branches(case, out):
         res = "err:" + ans["err"] if "err" in ans else "matrix" if "matrix" in ans else "key" if "key" in ans else "array" if "array" in ans else repr(ans.get("value"))
         return [f"key_site:{case['path']}:{case['spelling']}:{res}", f"key_site:form:{case['form']}"] + (
             [f"key_site:undriven:{case['path']}"] if out.get("signature_unknown") else [])
+    res = "err:" + out["err"] if "err" in out else "ok"
+    if k in ("task_list", "task_dict"):
+        byval = _task_values()
+        strs = case["items" if k == "task_list" else "keys"]
+        known = [s for s in strs if s in byval]
+        br = [f"{k}:{res}", f"{k}:n={min(len(strs), 4)}{'+' if len(strs) > 4 else ''}",
+              f"{k}:{'empty' if not strs else 'all-members' if len(known) == len(strs) else 'no-member' if not known else 'mixed'}"]
+        if len(set(strs)) < len(strs):
+            br.append(f"{k}:repetitions")
+        if len(known) < len(strs) and "err" not in out:
+            br.append(f"{k}:non-member-dropped")
+        return br
+    if k == "printed":
+        got = "member" if out.get("member") == case["member"] else "err" if "err" in out else "other"
+        return [f"printed:{case['parser']}:{case['how']}:{got}"] + (
+            ["undecided:policy-printed-form"] if case["parser"] not in PRINTED_IS_VALUE and got != "member" else [])
+    if k == "task_site_str":
+        return [f"task_site_str:{case['site']}:{res}"]
+    if k == "hashable":
+        return [f"hashable:{case['enum']}:{'yes' if out.get('hashable') else 'no'}"
+                + (":by-value" if out.get("by_value") else "") + ("" if case["enum"] in HASH_JUDGED else ":recorded-only")]
+    if k == "config_site":
+        fid = case["frame_id"]
+        form = "str" if isinstance(fid, str) else "empty" if not fid else ("tuple" if case.get("as_tuple") else "list") + (":1" if len(fid) == 1 else ":n")
+        return [f"config_site:{case['cls']}:{res}", f"config_site:frame_id:{form}:{'err' if 'err' in out else 'ok'}",
+                f"config_site:policy:{'none' if not case.get('policy') else 'given'}"]
     return [f"{k}:{case.get('spelling')}:{'err' if 'err' in out else 'ok'}"]
 
 
